@@ -69,7 +69,7 @@ func JSONWriteStringProp(b *[]byte, n string, s string) (notEmpty bool) {
 }
 
 func JSONWriteBoolProp(b *[]byte, n string, t bool) (notEmpty bool) {
-	return JSONWriteProp(b, n, []byte(fmt.Sprintf(`"%t"`, t)))
+	return JSONWriteProp(b, n, []byte(fmt.Sprintf("%t", t)))
 }
 
 func JSONWriteIntProp(b *[]byte, n string, d int64) (notEmpty bool) {
@@ -370,7 +370,9 @@ func JSONWriteQuestionValue(b *[]byte, q Question) (notEmpty bool) {
 	if q.AnyOf != nil {
 		notEmpty = JSONWriteItemProp(b, "anyOf", q.AnyOf) || notEmpty
 	}
-	notEmpty = JSONWriteBoolProp(b, "closed", q.Closed) || notEmpty
+	if q.Closed {
+		notEmpty = JSONWriteBoolProp(b, "closed", q.Closed) || notEmpty
+	}
 	return notEmpty
 }
 
